@@ -1,6 +1,11 @@
 import LyModel.Props.C06
+import LyModel.Props.C06UO
 #print axioms LyModel.Props.C06.userord_apply_diff
 #print axioms LyModel.Props.C06.diff_self_empty
 #print axioms LyModel.Props.C06.apply_diff_partial
 #print axioms LyModel.Props.C06.apply_diff_fails
 #print axioms LyModel.Props.C06.apply_respects_obs
+#print axioms LyModel.Props.C06UO.userord_core_apply_diff
+#print axioms LyModel.Props.C06UO.diff_userord_flat_ll_sim
+#print axioms LyModel.Props.C06UO.apply_userord_flat_ll_sim
+#print axioms LyModel.Props.C06UO.apply_diff_userord_flat_ll
